@@ -138,6 +138,37 @@ def run(tier: str, seed: int) -> int:
         r, d = items[0]
         v.violation("-".join(str(k) for k in key), dict(kind=key[0], op=key[1], exc=key[2], dialect=key[3], n_cases=len(items), first_diff=d,
                                                          program=(r["program"] if r else None), seeds=[x[0]["seed"] for x in items[:8] if x[0]]))
+    # ---------------- (c) directed grid: literals x dtypes, const parameters, empty context kwargs, unordered slices
+    import re as _re
+
+    from . import c19grid
+
+    grid = c19grid.run_grid()
+    grid_hist = {}
+    grid_known = {}
+    grid_new = {}
+    for g in grid:
+        grid_hist[g["outcome"]] = grid_hist.get(g["outcome"], 0) + 1
+        if g["outcome"] not in ("internal", "nondeterministic", "not_one_select"):
+            continue
+        owner = None
+        for f in findings:
+            for rule in f.get("grid", []):
+                if _re.search(rule["case"], g["case"]) and g["dialect"] in rule["dialects"] and g.get("exc") == rule.get("exc") and g["outcome"] == "internal" \
+                        and g.get("stage") == "build_query":
+                    owner = f
+        if owner is not None:
+            grid_known.setdefault(owner["id"], []).append(g)
+        else:
+            grid_new.setdefault((g["case"].split(".")[0] + "." + g["case"].split(".")[1], g["outcome"], g.get("exc")), []).append(g)
+    for f in findings:
+        if f["id"] in grid_known and f["id"] not in known_hits:
+            v.known_finding(f"{f['id']}: {f['summary']} ({len(grid_known[f['id']])} grid cases)")
+    for key, items in list(grid_new.items())[:6]:
+        v.violation("grid-" + "-".join(str(k) for k in key), dict(kind="grid_" + key[1], case=items[0]["case"], exc=key[2], n_cases=len(items),
+                                                                    cases=items[:12], how="python -m harness.c19grid -v | grep <case>"))
+    new = new + [(None, g) for items in grid_new.values() for g in items]
+
     broken = []
     if not po["ok"]:
         broken.append(dict(kind="proof", errors=po["build"].get("errors"), bad_axioms=po.get("bad_axioms"), forbidden=po.get("forbidden_hits"),
@@ -152,7 +183,7 @@ def run(tier: str, seed: int) -> int:
         obligations=po["obligations"], discharged=po["discharged"],
         checker_cmd="cd lean && lake build Pdt.Props.C19 && lake env lean ../out/audit/Pdt_Props_C19.lean",
         trusted_base=common.TRUSTED_BASE, theorems=po["theorems"], axioms=po["audit"].get("axioms"), proof_ok=po["ok"],
-        programs=len(ok) * len(DIALECTS), disagreements_checked=len(corr), evaluations=len(reqs) + len(ok) * len(DIALECTS),
+        programs=len(ok) * len(DIALECTS), disagreements_checked=len(corr), evaluations=len(reqs) + len(ok) * len(DIALECTS) + len(grid),
         distinct_nontrivial=st["distinct_nontrivial"],
         rule="(b) every backend class chain x every operator (x every argument tuple over a 20-type universe when a typed implementation "
              "exists) against the real get_impl; (a) generated programs built twice on SQLite, PostgreSQL and SQL Server dialect objects; "
@@ -160,7 +191,11 @@ def run(tier: str, seed: int) -> int:
         samples=[dict(request=reqs[i], real=real[i]) for i in rng.sample(range(len(reqs)), 4)],
         get_impl_histogram=hist, unsupported_pairs=[list(u) for u in unsupported][:80],
         dialects=DIALECTS, dialects_skipped=tables["impl"]["skipped"], verb_histogram=st["verbs"],
-        known_findings_hit={k: len(c) for k, c in known_hits.items()},
+        known_findings_hit={**{k: len(c) for k, c in known_hits.items()}, **{k + "(grid)": len(c) for k, c in grid_known.items()}},
+        grid_cases=len(grid), grid_outcomes=grid_hist,
+        grid_rule="every literal class x explicit dtype (typed nulls included) in mutate / comparison / coalesce+aggregate; every operator signature "
+                  "with a const parameter, with a plain and a computed constant; every window / aggregate operator with empty or duplicated "
+                  "arrange / partition_by / filter lists; unordered slices alone and below a subquery; x three dialects",
     )
     v.assumptions = ["that SQLAlchemy renders the compiled construct is observed (three dialects), not proved; execution is only possible on SQLite",
                      "DuckDB and DB2 dialect classes are only covered when importable (see dialects_skipped)"]
